@@ -15,7 +15,7 @@ BUDGET = {'quick': 420, 'thorough': 3000}
 SOURCES = ['src/dtaidistance/alignment.py', 'src/dtaidistance/dp.py']
 FUNCTIONS = ['alignment.needleman_wunsch', 'dp.dp', 'alignment.best_alignment (all six traceback orders)', 'alignment.make_substitution_fn (dictionary, opt max / min, gap)',
              'alignment._needleman_wunsch_border, _default_substitution_fn']
-BOUNDS = {'quick': {'alphabet': '{A,B}', 'lengths': '1..3 (dictionary substitution: 1..2)', 'orders': 'all 6', 'substitution': 'default, dictionary opt=max/min (gap 1); gap 0.5 is the region of the known finding F17-gap-border'},
+BOUNDS = {'quick': {'alphabet': '{A,B}', 'lengths': '1..3 (dictionary substitution: 1..2)', 'orders': 'all 6', 'substitution': 'default, dictionary opt=max/min (gap 1), direction-dependent callable (lengths 1..2); gap 0.5 is the region of the known finding F17-gap-border'},
           'thorough': {'alphabet': '{A,B,C}', 'lengths': '1..4 (dictionary substitution: 1..3; optimality against the exhaustive oracle: 1..4 over {A,B} and 1..3 over {A,B,C})', 'orders': 'all 6'}}
 OUTSIDE = ['empty sequences', 'symbolic substitution scores', 'window / max_dist / max_step / psi of dp', 'sequences longer than the bound']
 ASSUMPTIONS = ['oracle: exhaustive recursion over all global alignments, inside the contract', 'CrossHair verdict "Confirmed over all paths" only; anything else is inconclusive']
@@ -34,7 +34,7 @@ def tasks(tier, seed):
         if fn == '_nw_gap_half' and 'F17-gap-border' in act:
             continue
         line = src[:m.start()].count('\n') + 2
-        small = 'matrix' in fn
+        small = 'matrix' in fn or 'directed' in fn
         maxlen = (2 if small else 3) if tier == 'quick' else (3 if small else 4)
         combos = [(maxlen, 'AB' if tier == 'quick' else 'ABC')]
         if tier == 'thorough' and fn == '_nw_default':
